@@ -13,6 +13,7 @@ import (
 	"io"
 	"os"
 	"reflect"
+	"runtime"
 	"unsafe"
 
 	segment "github.com/blugelabs/bluge_segment_api"
@@ -117,6 +118,13 @@ func vpSymbolic() bool { return false }
 
 // Model-only knobs (no effect natively; the real library decides).
 func vpPoolReuse(on bool)  {}
+
+// vpPoolFlush empties every sync.Pool (two GC cycles drop the primary and the
+// victim cache): the next Get calls New.
+func vpPoolFlush() {
+	runtime.GC()
+	runtime.GC()
+}
 func vpMapReverse(on bool) {}
 func vpCancelAt(poll int)  { vpCancelPoll = poll }
 func vpPolls() int         { return 0 }
